@@ -253,7 +253,45 @@ def unroll_literal_loops(f, only_data_driven=False):
       defs = [s for s in walk_no_nested(node) if isinstance(s, ast.Name) and s.id == it.id and isinstance(s.ctx, ast.Store)]
       if len(defs) == 1 and isinstance(getattr(defs[0], '_parent', None), ast.Assign) and len(defs[0]._parent.targets) == 1:
         return literal_of(defs[0]._parent.value)
+    # zip / enumerate over literal tables
+    if isinstance(it, ast.Call) and isinstance(it.func, ast.Name) and not it.keywords and it.func.id == 'zip' and it.args:
+      parts = [literal_of(a) for a in it.args]
+      if all(p is not None for p in parts) and len({len(p.elts) for p in parts}) == 1:
+        return ast.Tuple(elts=[ast.Tuple(elts=[dataflow.clone(p.elts[i]) for p in parts], ctx=ast.Load()) for i in range(len(parts[0].elts))], ctx=ast.Load())
+    if isinstance(it, ast.Call) and isinstance(it.func, ast.Name) and it.func.id == 'enumerate' and len(it.args) == 1 and not it.keywords:
+      p0 = literal_of(it.args[0])
+      if p0 is not None:
+        return ast.Tuple(elts=[ast.Tuple(elts=[ast.Constant(value=i), dataflow.clone(x)], ctx=ast.Load()) for i, x in enumerate(p0.elts)], ctx=ast.Load())
     return None
+
+  def splat(e):
+    """f(*table) with a literal table -> f(a, b, ...)"""
+    if isinstance(e, (ast.FunctionDef, ast.ClassDef, ast.Lambda)):
+      return e
+    if isinstance(e, ast.Call) and any(isinstance(a, ast.Starred) for a in e.args):
+      flat, ok = [], True
+      for a in e.args:
+        if isinstance(a, ast.Starred):
+          lit_ = literal_of(a.value)
+          if lit_ is None:
+            ok = False
+            break
+          flat += [dataflow.clone(x) for x in lit_.elts]
+        else:
+          flat.append(a)
+      if ok:
+        e.args = flat
+        changed[0] = True
+    return dataflow._map_children(e, splat) if isinstance(e, ast.AST) else e
+
+  def splat_stmt(st):
+    for fld, val in list(ast.iter_fields(st)):
+      if fld in ('body', 'orelse', 'finalbody', 'handlers'):
+        continue
+      if isinstance(val, ast.AST):
+        setattr(st, fld, splat(val))
+      elif isinstance(val, list):
+        setattr(st, fld, [splat(x) if isinstance(x, ast.AST) else x for x in val])
 
   def bind(target, elt):
     if isinstance(target, ast.Name):
@@ -277,6 +315,8 @@ def unroll_literal_loops(f, only_data_driven=False):
       for fld in ('body', 'orelse', 'finalbody'):
         if hasattr(st, fld) and isinstance(getattr(st, fld), list):
           setattr(st, fld, block(getattr(st, fld)))
+      if not only_data_driven:
+        splat_stmt(st)
       lit = literal_of(st.iter) if isinstance(st, ast.For) and not st.orelse and (not only_data_driven or _data_driven(st)) else None
       if lit is not None and len(lit.elts) <= 32 and not any(isinstance(x, (ast.Break, ast.Continue, ast.Return, ast.Yield)) for b_ in st.body for x in ast.walk(b_)):
         binds = [bind(st.target, e) for e in lit.elts]
@@ -448,6 +488,10 @@ def _cloned(f):
 _OPERATOR_CMP = {'lt': ast.Lt, 'le': ast.LtE, 'gt': ast.Gt, 'ge': ast.GtE, 'eq': ast.Eq, 'ne': ast.NotEq}
 
 
+_OPERATOR_BIN = {'and_': ast.BitAnd, 'or_': ast.BitOr, 'xor': ast.BitXor, 'add': ast.Add, 'sub': ast.Sub, 'mul': ast.Mult, 'truediv': ast.Div,
+                 'floordiv': ast.FloorDiv, 'mod': ast.Mod, 'pow': ast.Pow, 'matmul': ast.MatMult}
+
+
 def constant_setattr(f):
   """setattr(obj, 'name', v) -> obj.name = v ;  getattr(obj, 'name') -> obj.name   (constant names only)."""
   node = f.node
@@ -462,6 +506,27 @@ def constant_setattr(f):
         and e.func.attr in _OPERATOR_CMP and len(e.args) == 2 and not e.keywords:
       changed[0] = True
       return ast.Compare(left=expr(e.args[0]), ops=[_OPERATOR_CMP[e.func.attr]()], comparators=[expr(e.args[1])])
+    if isinstance(e, ast.Call) and isinstance(e.func, ast.Attribute) and isinstance(e.func.value, ast.Name) and e.func.value.id == 'operator' \
+        and not e.keywords and not any(isinstance(a, ast.Starred) for a in e.args):
+      nm = e.func.attr
+      if nm in _OPERATOR_BIN and len(e.args) == 2:
+        changed[0] = True
+        return ast.BinOp(left=expr(e.args[0]), op=_OPERATOR_BIN[nm](), right=expr(e.args[1]))
+      if nm in ('not_', 'neg') and len(e.args) == 1:
+        changed[0] = True
+        return ast.UnaryOp(op=ast.Not() if nm == 'not_' else ast.USub(), operand=expr(e.args[0]))
+      if nm in ('is_', 'is_not') and len(e.args) == 2:
+        changed[0] = True
+        return ast.Compare(left=expr(e.args[0]), ops=[ast.Is() if nm == 'is_' else ast.IsNot()], comparators=[expr(e.args[1])])
+      if nm == 'contains' and len(e.args) == 2:
+        changed[0] = True
+        return ast.Compare(left=expr(e.args[1]), ops=[ast.In()], comparators=[expr(e.args[0])])
+      if nm == 'getitem' and len(e.args) == 2:
+        changed[0] = True
+        return ast.Subscript(value=expr(e.args[0]), slice=expr(e.args[1]), ctx=ast.Load())
+      if nm == 'truth' and len(e.args) == 1:
+        changed[0] = True
+        return ast.Call(func=ast.Name(id='bool', ctx=ast.Load()), args=[expr(e.args[0])], keywords=[])
     if isinstance(e, (ast.FunctionDef, ast.ClassDef)):
       return e
     return dataflow._map_children(e, expr) if isinstance(e, ast.AST) else e
